@@ -143,6 +143,8 @@ type stats struct {
 	WrapErr  int            `json:"wrap_read_errors"`
 	Changed  int            `json:"wrap_address_changed"`
 	ByKind   map[string]int `json:"wraps_by_kind"`
+	CfgLists int            `json:"configured_lists"`
+	CfgOK    int            `json:"configured_lists_accepted"`
 	Vectors  int            `json:"vectors"`
 	Random   int            `json:"random_cases"`
 	Samples  []any          `json:"samples"`
@@ -191,6 +193,11 @@ func (r *runner) contains(nets []string, peer net.Addr, host string) {
 }
 
 func (r *runner) wrap(nets []string, peer net.Addr, kind string) {
+	r.wrapCfg(&config.Config{ProxyProtocolTrustedProxies: nets}, nets, peer, kind)
+}
+
+// wrapCfg wraps a connection under cfg; nets is the trusted list that configuration stands for.
+func (r *runner) wrapCfg(cfg *config.Config, nets []string, peer net.Addr, kind string) {
 	first := kind
 	payload := []byte{0x10, 0x00, 0xfd, 0x05, 0x09, 'l', 'o', 'c', 'a', 'l', 'h', 'o', 's', 't', 0x63, 0xdd, 0x02}
 	if kind == "noneP" { // starts like "PROXY" without being a header
@@ -204,8 +211,7 @@ func (r *runner) wrap(nets []string, peer net.Addr, kind string) {
 	go func() {
 		client.Write(append(append([]byte(nil), hdr...), payload...))
 	}()
-	c, err := proxy.VerifWrapProxyProtocol(&config.Config{ProxyProtocolTrustedProxies: nets},
-		&fakeConn{Conn: server, remote: peer}, 3*time.Second)
+	c, err := proxy.VerifWrapProxyProtocol(cfg, &fakeConn{Conn: server, remote: peer}, 3*time.Second)
 	if err != nil {
 		r.t.Fatalf("list %q rejected: %v", nets, err)
 	}
@@ -363,6 +369,72 @@ func TestTrace(t *testing.T) {
 		}
 		r.runCase(r.rng.Intn(1000), pb, plen, peerb, zone, []string{kinds[r.rng.Intn(len(kinds))], "v1tcp4", "none"})
 		st.Random++
+	}
+
+	// 3b. whole configured lists (empty, blank and mixed entries included) through the
+	// configuration path: proxy.New with ProxyProtocol on, and Config.Validate
+	var lists []struct {
+		List    [][]int `json:"list"`
+		Verdict string  `json:"verdict"`
+	}
+	lb, err := os.ReadFile(filepath.Join(tracefmt.OutDir(), "lists.json"))
+	if err != nil {
+		t.Fatal(err)
+	}
+	if err := json.Unmarshal(lb, &lists); err != nil {
+		t.Fatal(err)
+	}
+	// the documented built-in trust set that applies when nothing is configured
+	documentedDefaults := []string{"127.0.0.0/8", "::1/128", "10.0.0.0/8", "172.16.0.0/12", "192.168.0.0/16",
+		"169.254.0.0/16", "fc00::/7", "fe80::/10"}
+	base := config.DefaultConfig
+	base.ProxyProtocol = true
+	if _, err := proxy.New(proxy.Options{Config: &base}); err != nil {
+		t.Fatalf("proxy.New with the default configuration: %v", err)
+	}
+	for i, lv := range lists {
+		list := make([]string, len(lv.List))
+		for k, e := range lv.List {
+			list[k] = string(toBytes(e))
+		}
+		cfg := config.DefaultConfig
+		cfg.ProxyProtocol = true
+		cfg.ProxyProtocolTrustedProxies = list
+		// proxy.New generates a key pair each time: in quick every sixth list and all acceptable
+		// ones go through it, the others through its newProxyProtocol step alone
+		var nerr error
+		if tracefmt.Thorough() || i%6 == 0 || lv.Verdict == "ok" {
+			_, nerr = proxy.New(proxy.Options{Config: &cfg})
+		} else {
+			c1, c2 := net.Pipe()
+			_, nerr = proxy.VerifWrapProxyProtocol(&cfg, c1, time.Second)
+			c1.Close()
+			c2.Close()
+		}
+		_, verrs := cfg.Validate()
+		vok := true
+		for _, e := range verrs {
+			if strings.Contains(e.Error(), "proxyProtocolTrustedProxies") {
+				vok = false
+			}
+		}
+		tw.Emit(tracefmt.Rec{"ev": "cfglist", "list": lv.List, "new_ok": nerr == nil, "validate_ok": vok, "s": fmt.Sprintf("%q", list)})
+		st.CfgLists++
+		if nerr == nil {
+			st.CfgOK++
+		}
+		if lv.Verdict != "ok" || nerr != nil {
+			continue
+		}
+		// the trust decision such a configuration results in
+		nets := list
+		if len(nets) == 0 {
+			nets = documentedDefaults
+		}
+		for k, peer := range []string{"10.20.30.40:40000", "192.0.2.10:40000", "203.0.113.5:40000", "[2001:db8::7]:40000"} {
+			kind := []string{"v1tcp4", "none", "v2tcp6"}[(i+k)%3]
+			r.wrapCfg(&cfg, nets, netutil.NewAddr(peer, "tcp"), kind)
+		}
 	}
 
 	// 4. the trusted-list grammar: curated and mutated strings
